@@ -46,7 +46,17 @@ ExtCases ==
     {ADCase(In("mc", FLAG_UP + FLAG_ED, BN(1), GNone, <<e>>), "mc-ext") : e \in McExtSubsets}
     \cup {ADCase(In("ga", FLAG_UP + FLAG_UV + FLAG_ED, BN(2), GNone, <<e>>), "ga-ext") : e \in GaExtSubsets}
 
-MC_Cases == FlagCases \cup AcdCases \cup ExtCases
+\* a caller-defined extension-output type (the authenticator-data type is generic in it) whose
+\* encoding runs from a few bytes up to and past everything the 676-byte buffer can hold
+CallerLens == IF Deep THEN 0..400 ELSE {0, 1, 23, 24, 80, 100, 200, 255, 256, 400} \cup (110..130) \cup (207..215)
+CallerExtCases ==
+    {ADCase(In("custom", FLAG_UP + FLAG_ED, BN(3), GNone, <<[credBlob |-> cb, hmacSecret |-> <<Pattern(105, n)>>]>>), "caller-ext") :
+        cb \in {GNone, << << >> >>, <<Pattern(106, 400)>>}, n \in CallerLens}
+    \cup {ADCase(In("custom", FLAG_UP + FLAG_ED, BN(3), GNone, <<[credBlob |-> <<Pattern(106, n)>>, hmacSecret |-> GNone]>>), "caller-ext") :
+        n \in CallerLens}
+    \cup {ADCase(In("custom", FLAG_UP, BN(3), GNone, GNone), "caller-ext")}
+
+MC_Cases == FlagCases \cup AcdCases \cup ExtCases \cup CallerExtCases
 
 (***************************************************************************)
 (* C07 on the model: the independent inverse recovers every input          *)
